@@ -1481,6 +1481,15 @@ impl Analyzable for Program {
             }
         }
 
+        // transactions are looked up by name, a second one under the same name would be unreachable
+        let mut tx_names = std::collections::HashSet::new();
+
+        for tx in self.txs.iter() {
+            if !tx_names.insert(tx.name.value.as_str()) {
+                duplicates = duplicates + Error::DuplicateDefinition(tx.name.value.clone()).into();
+            }
+        }
+
         for tx in self.txs.iter() {
             for param in tx.parameters.parameters.iter() {
                 if arg_keys.contains(&param.name.value.to_lowercase()) {
